@@ -4,9 +4,13 @@ import "archive/tar"
 
 // World shared by the Unpack harnesses: dst = /w/d next to a sibling whose name extends dst's
 // (/w/d2), a victim file and a victim directory.
-const unpackDst = "/w/d"
+// unpackDst: the destination as handed to Unpack; the spellings all denote /w/d.
+var unpackDst = "/w/d"
+
+var unpackDstSpellings = []string{"/w/d", "/w//d", "/w/./d", "/w/d/.", "/w/d/", "/w/vd/../d"}
 
 func unpackWorld() {
+	unpackDst = unpackDstSpellings[verif.Choose("dst", verif.Param("nDst", 1))]
 	envReset()
 	envMkdir("/w", 0755, 100)
 	envMkdir("/w/d", 0755, 100)
@@ -201,6 +205,9 @@ func HarnessUnpackStep() {
 		envMkdir("/w/d/"+dname, 0755, 100)
 	}
 	envSymlink("/w/d/"+lname, symPath("pre.target", verif.Param("sPre", 3), 1, true), 100)
+	// does the pre-state satisfy the invariant "every link under dst resolves inside dst"?
+	preWhere, preTerm := refPhysical("/w/d/" + lname)
+	preOK := !preTerm || refHasPrefix(preWhere, []string{"w", "d"})
 	k := verif.Param("K", 1)
 	var entries []envTarEntry
 	for i := 0; i < k; i++ {
@@ -211,4 +218,20 @@ func HarnessUnpackStep() {
 	verif.ObserveBool("ok", err == nil)
 	verif.Reach("step-done")
 	verif.Assert("C01-nothing-outside-dst-touched", envChangedOutside(unpackDst) == "")
+	// inductive step for C04: from a state in which every link resolves inside dst, a further
+	// entry leaves it so (entries in the class of the open finding excluded)
+	r3 := false
+	for _, e := range entries {
+		if e.Typeflag == tar.TypeSymlink && unpackDotDotAfterName(e.Linkname) {
+			r3 = true
+		}
+	}
+	if preOK && !(r3 && verif.KnownOpen("KF-C04-dotdot-after-link")) {
+		for _, n := range envSnapshot("/w/d") {
+			if n.Kind == envLink {
+				where, ok := refPhysical("/w/d/" + n.Path)
+				verif.Assert("C04-link-resolves-inside-dst", !ok || refHasPrefix(where, []string{"w", "d"}))
+			}
+		}
+	}
 }
